@@ -443,6 +443,11 @@ func (reconfStream) Execute(c Case) {
 		}
 		nilSpec, _ := c["nilspec"].(bool)
 		want := defaultAPIImage(explicit.Refresh, explicit.GetErrors, explicit.InjectDevices, explicit.ListDevices, req, nilSpec)
+		if nilSpec {
+			// (the child's very first call is the nil-spec injection, before the default cache exists)
+			u0, e0 := explicit.InjectDevices(nil, req...)
+			want = fmt.Sprint("first call: ", u0, e0 != nil, " ") + want
+		}
 		self, _ := os.Executable()
 		args, _ := json.Marshal(map[string]any{"dirs": dirs, "req": req, "nilspec": nilSpec})
 		out, err := exec.Command(self, "child", "defaultapi", string(args)).Output()
@@ -498,8 +503,15 @@ func childDefaultAPI(args []string) int {
 	if json.Unmarshal([]byte(args[0]), &a) != nil {
 		return 2
 	}
+	first := ""
+	if a.NilSpec {
+		// the very first thing this process does with the package: an injection into a nil OCI spec
+		cdi.DefaultSpecDirs = a.Dirs
+		u0, e0 := cdi.InjectDevices(nil, a.Req...)
+		first = fmt.Sprint("first call: ", u0, e0 != nil, " ")
+	}
 	_ = cdi.Configure(cdi.WithSpecDirs(a.Dirs...), cdi.WithAutoRefresh(false))
-	fmt.Println(defaultAPIImage(cdi.Refresh, cdi.GetErrors, cdi.InjectDevices, cdi.GetDefaultCache().ListDevices, a.Req, a.NilSpec))
+	fmt.Println(first + defaultAPIImage(cdi.Refresh, cdi.GetErrors, cdi.InjectDevices, cdi.GetDefaultCache().ListDevices, a.Req, a.NilSpec))
 	return 0
 }
 
